@@ -8,7 +8,8 @@
 //! Oracle per join (tasks that were never cancelled):
 //!  (a) a value is that task's own value (`None` only for the task that returns `None`), an
 //!      error is that task's own panic text;
-//!  (b) `TimedOut` only if the body had not finished 5 ms before the deadline;
+//!  (b) `TimedOut` only if the body had not finished 25 ms (150 ms for a panicking body, whose
+//!      result exists only after unwinding) before the deadline;
 //!  (c) the join returns within 250 ms of max(body end, call) — confirmed by repeat.
 
 use super::rt::{self, Body, Case, Log, Op, Run};
@@ -109,7 +110,11 @@ pub fn judge(c: &Case, run: Run) -> Outcome {
                 }
             }
             "timeout" => {
-                if t.ended != 0 && t.ended + 5_000_000 < deadline {
+                // `ended` is stamped inside the body; the result exists only after the runtime
+                // has taken over again -- for a panicking body after the unwinder has run (the
+                // first panic of a process costs milliseconds of CPU, many more on a loaded host)
+                let grace: u64 = if matches!(t.body, Body::PanicStatic | Body::PanicString) { 150_000_000 } else { 25_000_000 };
+                if t.ended != 0 && t.ended + grace < deadline {
                     o.set_fail(
                         format!("{pre}/join-timed-out-although-the-task-had-finished"),
                         format!("{what} timed out although the body had finished {} ms before the deadline (ran on {})", (deadline - t.ended) / 1_000_000, t.thread),
@@ -159,7 +164,7 @@ pub fn main(args: &Args) -> i32 {
     }
     let mut ev = Evidence::new("C02", args, "exploration");
     ev.assume("a join is judged only when it is the only join on its task (the result is consumed by the first); tasks that were cancelled are not judged here");
-    ev.assume("promptness bound 250 ms after max(body end, call), confirmed by 3 re-executions; 'timed out although finished' needs the body to have ended >= 5 ms before the deadline");
+    ev.assume("promptness bound 250 ms after max(body end, call), confirmed by 3 re-executions; 'timed out although finished' needs the body to have ended >= 25 ms (panicking body: 150 ms) before the deadline");
     ev.assume("two or more event loops are judged under their own signature prefix (see known_findings.json)");
     ev.add(vkit::run_regress("C02", |_s, case| exec(&serde_json::from_value(case).expect("case"))));
     if ev.has_violations() {
